@@ -269,7 +269,7 @@ func init() {
 		Rule: "for every name occurrence of every enumerated program (spaces of C05 up to 3 nodes) textDocument/rename is requested with the fresh names zz and <old>_; the edits must (i) not overlap, (ii) each cover an identifier spelled with the old name, (iii) equal the reference occurrence class, " +
 			"(iv) applied to the files give programs with the same binding structure (reference binder on the edited text), (v) a fresh server on the edited workspace publishes the same diagnostic types on the same lines. states = accepted renames judged; non-trivial = programs with >2 occurrences",
 		Assumptions: []string{"names that no file ever assigns are not judged (as in C06)", "diagnostics are compared by (file, type, line) because columns shift with the new name's length"},
-		Flavour:     "prod+overlay", QuickBudgetS: 420, ThoroughBudgetS: 1500,
+		Flavour:     "prod+overlay", QuickBudgetS: 420, ThoroughBudgetS: 3600,
 		Spaces: func(tier string) []*core.Space {
 			forms, structure, _ := scopeAlphabets()
 			one := otherVariants[:1]
